@@ -23,8 +23,9 @@ PROPS = {
 PROPS["C10"] = dict(
     pkg="./props/codec", level="exploration", design_ref="DESIGN.md §3 C10",
     technique="rapid-generated field-map operation programs against reference maps, an independent tag=value scanner and a parse round trip",
-    stages=[dict(name="rapid", kind="rapid", run="^TestC10_Rapid$", checks=(6000, 100000), shards=(12, 16), timeout=(400, 2400))],
-    require=["program-with:remove-then-set", "program-with:overwrite", "program-with:group", "program-with:copy", "program-with:clear", "program-with:copy-with-group", "program-with:copy-into-used-message", "program-with:group-overwritten-by-scalar"],
+    stages=[dict(name="rapid", kind="rapid", run="^TestC10_Rapid$", checks=(6000, 100000), shards=(12, 16), timeout=(400, 2400)),
+            dict(name="unlisted-entry-field", kind="rapid", run="^TestC10_UnlistedEntryField$", checks=(2000, 40000), shards=(4, 16), timeout=(400, 2400))],
+    require=["program-with:unlisted-entry-field", "program-with:remove-then-set", "program-with:overwrite", "program-with:group", "program-with:copy", "program-with:clear", "program-with:copy-with-group", "program-with:copy-into-used-message", "program-with:group-overwritten-by-scalar"],
     assumptions=["tags are used in their proper section (standard header/trailer tables); BodyLength(9), CheckSum(10) and the XMLData pair 212/213 are not set by the generated programs",
                  "group member tags are disjoint from scalar body tags (FIX forbids a tag twice outside a group)"],
 )
